@@ -2950,6 +2950,7 @@ def _apply_sifting(
     # using `set` injects some randomness
     levels = bdd._levels()
     names = set(bdd.vars)
+    m = n
     for var in names:
         k = _reorder_var(bdd, var, levels)
         m = len(bdd)
@@ -2982,6 +2983,9 @@ def _reorder_var(
     start = 0
     end = n
     level = bdd.level_of_var(var)
+    # single variable ?
+    if n == 0:
+        return level
     # closer to bottom ?
     if (2 * level) >= n:
         start, end = end, start
